@@ -23,6 +23,10 @@ TEXT = {"doc": '# [ doc = " MARKER-DOC" ]', "lint": "# [ allow ( unused_variable
 
 def render(i):
     m = MARK[i["kind"]]
+    if i.get("extra") == "before":
+        m = "#[allow(dead_code)]\n    " + m
+    elif i.get("extra") == "after":
+        m = m + "\n    #[allow(dead_code)]"
     a = "async " if i["async"] else ""
     nd = ", no_deps" if i["nodeps"] else ""
     deps = "" if i["nodeps"] else "deps: &D, "
@@ -105,7 +109,9 @@ def observe(i, recs):
 
 def main():
     chk = vf.Check("C18")
-    cases, res = vf.mc_cases(chk, "MC_C18", actions=["AttributeFlow"], workers=4)
+    thorough = vf.tier() == "thorough"
+    cases, res = vf.mc_cases(chk, "MC_C18", cfg_edits=({'Extras = {"none"}': 'Extras = {"none", "before", "after"}'} if thorough else None),
+                             actions=["AttributeFlow"], workers=4)
     crate = vf.Crate(os.path.join(chk.work, "crate"), "c18cases", deps=["vt"])
     for c in cases:
         crate.add_case(c["case"], render(c["in"]))
@@ -130,7 +136,7 @@ def main():
     ev = {e["case"]: e for e in events}
     chk.cov["evaluations"] = len(events)
     chk.cov["distinct_nontrivial"] = sum(1 for e in events if e["obs"]["expanded"])
-    chk.cov["rule"] = ("attribute kind {doc, lint, enabled cfg, disabled cfg, tool attribute, inert built-in, cfg_attr, two stacked cfgs (enabled then disabled)} x placement {fn, parameter (identifier, `_` and destructuring patterns), module fn, "
+    chk.cov["rule"] = (("thorough: every input also with an unrelated `#[allow(dead_code)]` before / after the marker; " if thorough else "") + "attribute kind {doc, lint, enabled cfg, disabled cfg, tool attribute, inert built-in, cfg_attr, two stacked cfgs (enabled then disabled)} x placement {fn, parameter (identifier, `_` and destructuring patterns), module fn, "
                        "impl-block fn, trait method} x sync/async x deps/no_deps (where the combination is legal Rust); all replayed")
     chk.cov["exhaustive"] = True
     vf.report_drift(chk, drift, lambda d: f"in={byid[d['case']]['in']} obs={ev[d['case']]['obs']}")
